@@ -17,7 +17,7 @@ BF == FeeInfo("bidfee1", Dec(250000, "plain"))
 Grids == {
   [prec |-> 1, inc |-> 10, askp |-> {D(5000), D(10000), D(15000)}, bidp |-> {D(15000), D(25000)}, third |-> D(20000),
    sizes |-> IF Tier = "quick" THEN {20} ELSE {10, 20}, exec |-> {1, 2, 3, 4, 5, 10, 15, 20, 21}, rej |-> {5, 10, 20}],
-  [prec |-> 3, inc |-> 1000, askp |-> {D(10010), D(10050)}, bidp |-> {D(10050), D(10100)}, third |-> D(10020),
+  [prec |-> 3, inc |-> 1000, askp |-> {D(10010), D(10050)}, bidp |-> {D(10010), D(10050), D(10100)}, third |-> D(10020),
    sizes |-> {1000}, exec |-> {4, 5, 100, 200, 996, 1000}, rej |-> {500, 1000}] }
 
 Fees == IF Tier = "quick" THEN {<<NoFeeInfo, BF>>} ELSE {<<a, b>> : a \in {NoFeeInfo, AF}, b \in {NoFeeInfo, BF}}
